@@ -12,6 +12,7 @@ interpreted cells of `Gen.Consts`, and the differential check of `Value.*`
 against the rebuilt binary.
 -/
 import LedgerModel.Lemmas.Value
+import LedgerModel.Lemmas.BalanceEq
 import LedgerModel.Gen.ValueCells
 import LedgerModel.Model.ValueCellsPinned
 import LedgerModel.Gen.AmountFns
@@ -430,6 +431,43 @@ theorem C03.lt_iff (a b : Value) (x y : Rat) (ca cb : Comm)
     by_cases h1 : p.q < q.q
     · simp [h1]
     · by_cases h2 : p.q = q.q <;> simp [h1, h2]
+
+/-- Full statement for balances: `==` decides equality of the exact denotations.
+    It is FALSE for the code as it is (`C03.eq_bal_counterexample`): `balance_t::operator+=`
+    keeps a component that cancels to zero (known finding `C03:zero-entry-balance`). -/
+def C03.EqBalDecidesDen : Prop :=
+  ∀ a b : Balance, Value.eq (.bal a) (.bal b) = .ok (decide (∀ c ∈ a.comms ++ b.comms, a.den c = b.den c))
+
+/-- What is proved instead (`…_partial`): on balances satisfying the representation
+    invariant `Balance.WF` (one entry per commodity, none zero) `==` decides equality
+    of denotations. -/
+theorem C03.eq_bal_iff_den_partial (a b : Balance) (ha : a.WF) (hb : b.WF) :
+    Value.eq (.bal a) (.bal b) = .ok true ↔ ∀ c, a.den c = b.den c := by
+  simp only [Value.eq, Except.ok.injEq]
+  exact Balance.eqBal_iff_den a b ha hb
+
+/-- The witness reported by the check: {2.50 EUR, 0 USD} and {2.50 EUR} denote the same
+    function but are not `==`. -/
+theorem C03.eq_bal_counterexample :
+    ∃ a b : Balance, Value.eq (.bal a) (.bal b) = .ok false ∧ ∀ c, a.den c = b.den c := by
+  refine ⟨[⟨5/2, 2, false, "EUR"⟩, ⟨0, 0, false, "USD"⟩], [⟨5/2, 2, false, "EUR"⟩], by decide +kernel, ?_⟩
+  intro c
+  simp only [Balance.den_cons, Balance.den_nil, Amount.den]
+  split <;> split <;> grind
+
+/-- `-=` maintains the invariant (it erases an entry that becomes zero); `+=` is the
+    operation that does not. -/
+theorem C03.sub_keeps_wf (b : Balance) (a : Amount) (h : b.WF) : (Balance.subAmt b a).WF :=
+  Balance.subAmt_WF b a h
+
+theorem C03.add_breaks_wf : ∃ (b : Balance) (a : Amount), b.WF ∧ ¬ (Balance.addAmt b a).WF := by
+  refine ⟨[⟨3, 0, false, "USD"⟩], ⟨-3, 0, false, "USD"⟩, ?_, ?_⟩
+  · refine ⟨by simp [Balance.comms], ?_⟩
+    intro x hx; simp only [List.mem_singleton] at hx; subst hx; decide +kernel
+  · intro h
+    have hne : ¬ ((-3 : Rat) = 0) := by decide +kernel
+    have := h.2 ⟨3 + -3, 0, false, "USD"⟩ (by simp [Balance.addAmt, Balance.addGo, hne])
+    exact this (by decide +kernel)
 
 /-- The derived comparison operators are the ones boost::operators builds from `<` and `==`. -/
 theorem C03.derived_ops (a b : Value) :
